@@ -13,168 +13,168 @@ import (
 
 func VerifHarness_C10_Send() {
 	zzinv.Install()
-	k, _ := symKeeper()
+	k, _ := zzvSymKeeper()
 	req := &types.MsgSend{}
 	zzinv.RunDet(&k, req, func(ctx context.Context) (interface{}, error) { return k.Send(ctx, req) })
 }
 
 func VerifHarness_C10_Retire() {
 	zzinv.Install()
-	k, _ := symKeeper()
+	k, _ := zzvSymKeeper()
 	req := &types.MsgRetire{}
 	zzinv.RunDet(&k, req, func(ctx context.Context) (interface{}, error) { return k.Retire(ctx, req) })
 }
 
 func VerifHarness_C10_Cancel() {
 	zzinv.Install()
-	k, _ := symKeeper()
+	k, _ := zzvSymKeeper()
 	req := &types.MsgCancel{}
 	zzinv.RunDet(&k, req, func(ctx context.Context) (interface{}, error) { return k.Cancel(ctx, req) })
 }
 
 func VerifHarness_C10_Bridge() {
 	zzinv.Install()
-	k, _ := symKeeper()
+	k, _ := zzvSymKeeper()
 	req := &types.MsgBridge{}
 	zzinv.RunDet(&k, req, func(ctx context.Context) (interface{}, error) { return k.Bridge(ctx, req) })
 }
 
 func VerifHarness_C10_CreateBatch() {
 	zzinv.Install()
-	k, _ := symKeeper()
+	k, _ := zzvSymKeeper()
 	req := &types.MsgCreateBatch{}
 	zzinv.RunDet(&k, req, func(ctx context.Context) (interface{}, error) { return k.CreateBatch(ctx, req) })
 }
 
 func VerifHarness_C10_MintBatchCredits() {
 	zzinv.Install()
-	k, _ := symKeeper()
+	k, _ := zzvSymKeeper()
 	req := &types.MsgMintBatchCredits{}
 	zzinv.RunDet(&k, req, func(ctx context.Context) (interface{}, error) { return k.MintBatchCredits(ctx, req) })
 }
 
 func VerifHarness_C10_BridgeReceive() {
 	zzinv.Install()
-	k, _ := symKeeper()
+	k, _ := zzvSymKeeper()
 	req := &types.MsgBridgeReceive{}
 	zzinv.RunDet(&k, req, func(ctx context.Context) (interface{}, error) { return k.BridgeReceive(ctx, req) })
 }
 
 func VerifHarness_C10_SealBatch() {
 	zzinv.Install()
-	k, _ := symKeeper()
+	k, _ := zzvSymKeeper()
 	req := &types.MsgSealBatch{}
 	zzinv.RunDet(&k, req, func(ctx context.Context) (interface{}, error) { return k.SealBatch(ctx, req) })
 }
 
 func VerifHarness_C10_CreateClass() {
 	zzinv.Install()
-	k, _ := symKeeper()
+	k, _ := zzvSymKeeper()
 	req := &types.MsgCreateClass{}
 	zzinv.RunDet(&k, req, func(ctx context.Context) (interface{}, error) { return k.CreateClass(ctx, req) })
 }
 
 func VerifHarness_C10_CreateProject() {
 	zzinv.Install()
-	k, _ := symKeeper()
+	k, _ := zzvSymKeeper()
 	req := &types.MsgCreateProject{}
 	zzinv.RunDet(&k, req, func(ctx context.Context) (interface{}, error) { return k.CreateProject(ctx, req) })
 }
 
 func VerifHarness_C10_UpdateClassAdmin() {
 	zzinv.Install()
-	k, _ := symKeeper()
+	k, _ := zzvSymKeeper()
 	req := &types.MsgUpdateClassAdmin{}
 	zzinv.RunDet(&k, req, func(ctx context.Context) (interface{}, error) { return k.UpdateClassAdmin(ctx, req) })
 }
 
 func VerifHarness_C10_UpdateClassIssuers() {
 	zzinv.Install()
-	k, _ := symKeeper()
+	k, _ := zzvSymKeeper()
 	req := &types.MsgUpdateClassIssuers{}
 	zzinv.RunDet(&k, req, func(ctx context.Context) (interface{}, error) { return k.UpdateClassIssuers(ctx, req) })
 }
 
 func VerifHarness_C10_UpdateClassMetadata() {
 	zzinv.Install()
-	k, _ := symKeeper()
+	k, _ := zzvSymKeeper()
 	req := &types.MsgUpdateClassMetadata{}
 	zzinv.RunDet(&k, req, func(ctx context.Context) (interface{}, error) { return k.UpdateClassMetadata(ctx, req) })
 }
 
 func VerifHarness_C10_UpdateProjectAdmin() {
 	zzinv.Install()
-	k, _ := symKeeper()
+	k, _ := zzvSymKeeper()
 	req := &types.MsgUpdateProjectAdmin{}
 	zzinv.RunDet(&k, req, func(ctx context.Context) (interface{}, error) { return k.UpdateProjectAdmin(ctx, req) })
 }
 
 func VerifHarness_C10_UpdateProjectMetadata() {
 	zzinv.Install()
-	k, _ := symKeeper()
+	k, _ := zzvSymKeeper()
 	req := &types.MsgUpdateProjectMetadata{}
 	zzinv.RunDet(&k, req, func(ctx context.Context) (interface{}, error) { return k.UpdateProjectMetadata(ctx, req) })
 }
 
 func VerifHarness_C10_UpdateBatchMetadata() {
 	zzinv.Install()
-	k, _ := symKeeper()
+	k, _ := zzvSymKeeper()
 	req := &types.MsgUpdateBatchMetadata{}
 	zzinv.RunDet(&k, req, func(ctx context.Context) (interface{}, error) { return k.UpdateBatchMetadata(ctx, req) })
 }
 
 func VerifHarness_C10_AddCreditType() {
 	zzinv.Install()
-	k, _ := symKeeper()
+	k, _ := zzvSymKeeper()
 	req := &types.MsgAddCreditType{}
 	zzinv.RunDet(&k, req, func(ctx context.Context) (interface{}, error) { return k.AddCreditType(ctx, req) })
 }
 
 func VerifHarness_C10_SetClassCreatorAllowlist() {
 	zzinv.Install()
-	k, _ := symKeeper()
+	k, _ := zzvSymKeeper()
 	req := &types.MsgSetClassCreatorAllowlist{}
 	zzinv.RunDet(&k, req, func(ctx context.Context) (interface{}, error) { return k.SetClassCreatorAllowlist(ctx, req) })
 }
 
 func VerifHarness_C10_AddClassCreator() {
 	zzinv.Install()
-	k, _ := symKeeper()
+	k, _ := zzvSymKeeper()
 	req := &types.MsgAddClassCreator{}
 	zzinv.RunDet(&k, req, func(ctx context.Context) (interface{}, error) { return k.AddClassCreator(ctx, req) })
 }
 
 func VerifHarness_C10_RemoveClassCreator() {
 	zzinv.Install()
-	k, _ := symKeeper()
+	k, _ := zzvSymKeeper()
 	req := &types.MsgRemoveClassCreator{}
 	zzinv.RunDet(&k, req, func(ctx context.Context) (interface{}, error) { return k.RemoveClassCreator(ctx, req) })
 }
 
 func VerifHarness_C10_UpdateClassFee() {
 	zzinv.Install()
-	k, _ := symKeeper()
+	k, _ := zzvSymKeeper()
 	req := &types.MsgUpdateClassFee{}
 	zzinv.RunDet(&k, req, func(ctx context.Context) (interface{}, error) { return k.UpdateClassFee(ctx, req) })
 }
 
 func VerifHarness_C10_AddAllowedBridgeChain() {
 	zzinv.Install()
-	k, _ := symKeeper()
+	k, _ := zzvSymKeeper()
 	req := &types.MsgAddAllowedBridgeChain{}
 	zzinv.RunDet(&k, req, func(ctx context.Context) (interface{}, error) { return k.AddAllowedBridgeChain(ctx, req) })
 }
 
 func VerifHarness_C10_RemoveAllowedBridgeChain() {
 	zzinv.Install()
-	k, _ := symKeeper()
+	k, _ := zzvSymKeeper()
 	req := &types.MsgRemoveAllowedBridgeChain{}
 	zzinv.RunDet(&k, req, func(ctx context.Context) (interface{}, error) { return k.RemoveAllowedBridgeChain(ctx, req) })
 }
 
 func VerifHarness_C10_BurnRegen() {
 	zzinv.Install()
-	k, _ := symKeeper()
+	k, _ := zzvSymKeeper()
 	req := &types.MsgBurnRegen{}
 	zzinv.RunDet(&k, req, func(ctx context.Context) (interface{}, error) { return k.BurnRegen(ctx, req) })
 }
